@@ -4,6 +4,7 @@ import (
 	"go/ast"
 	"go/constant"
 	"go/printer"
+	"go/token"
 	"go/types"
 	"math/big"
 	"strings"
@@ -143,9 +144,12 @@ func methodDecl(p *packages.Package, recv, name string) *ast.FuncDecl {
 	return nil
 }
 
-func exprString(w *World, e ast.Expr) string {
+func exprString(w *World, e ast.Expr) string { return exprStringF(w.Fset, e) }
+
+// exprStringF prints an expression with the FileSet it was parsed with (a foreign FileSet yields unstable output).
+func exprStringF(fset *token.FileSet, e ast.Expr) string {
 	var sb strings.Builder
-	printer.Fprint(&sb, w.Fset, e)
+	printer.Fprint(&sb, fset, e)
 	return strings.Join(strings.Fields(sb.String()), " ")
 }
 
